@@ -4,7 +4,7 @@
    (re)started tracker, and every event list evs: Track / Untrack (each preceded by the matching change of the shared
    state), Recover, RecoverAll with every visiting order, completion of any in-flight IPFS call with or without a fault,
    and - where stated - arbitrary changes of the daemon behind the tracker's back (EDaemon). *)
-From V Require Import Base.Common Model.C05_Tracker Model.C05_Check Proofs.C05_Tracker Proofs.C05_Monitor.
+From V Require Import Base.Common Model.C05_Tracker Model.C05_Check Proofs.C05_Tracker Proofs.C05_Monitor Proofs.C06_MonitorT Proofs.C05_MonitorC.
 Open Scope N_scope.
 
 Definition reached (q n : nat) (ps : list (N * tpin)) (i : list (N * bool)) (evs : list event) : st := run (init q n ps i) evs.
@@ -159,3 +159,41 @@ Example c05_monitor_example :
                  (EComplete 1 false, (0, [128; 16], [(1, 16)], dm, [], []))] in
   spec_codes cf (h [(1, 2)] 7) = [] /\ spec_codes cf (h [(1, 1)] 7) = [10] /\ spec_codes cf (h [(1, 2)] 8) = [14].
 Proof. vm_compute. repeat split. Qed.
+
+(* ---- completeness of the monitors for the model ---- *)
+
+(* the dispatch fact (every state reached by an event): a current entry still waiting in a queue means every worker of that
+   queue is busy *)
+Theorem dispatch_leaves_no_idle_worker s e : dispatched (fst (step s e)).
+Proof. exact (step_dispatched s e). Qed.
+Print Assumptions dispatch_leaves_no_idle_worker.
+
+(* the monitor's observational quiescence (no call in flight, no listed status pending) IS the model's `quiescent`, for every
+   state satisfying the invariant and the dispatch fact, with at least one pin worker - whatever cids the observation lists *)
+Theorem monitor_quiescence_agrees n s r fs : Inv s -> dispatched s -> (0 < npin s)%nat ->
+  o_quiescent (model_obs n s r fs) = quiescent s.
+Proof. exact (quiescence_agrees n s r fs). Qed.
+Print Assumptions monitor_quiescence_agrees.
+
+(* for every queue size, worker count > 0, initial pins (one per cid) and daemon content, and every script whose Track / Untrack /
+   Recover cids are among the n cids the observation lists: the observation trace computed from the model (mtrace: return value,
+   Status of each cid, StatusAll, daemon, calls in flight, after every event) raises no monitor code (10, 11, 13, 14) *)
+Theorem tracker_model_passes_monitor q np n pins i fs evs :
+  (0 < np)%nat -> NoDup (map pcid pins) -> Forall (ev_bounded n) evs ->
+  let cf := (q, np, n, pins, dm_of i) in spec_codes cf (mtrace n fs (init_of cf) evs) = [].
+Proof. exact (tracker_model_passes_monitor_l q np n pins i fs evs). Qed.
+Print Assumptions tracker_model_passes_monitor.
+
+(* non-vacuity: a script with a full queue, a failed pin, an untrack, daemon interference, a recover round; its model trace has
+   quiescent observations and passes. And the premise np > 0 of monitor_quiescence_agrees is needed: without a worker a cid the
+   observation does not list stays queued while the observation looks quiescent *)
+Example c05_model_trace_example :
+  let evs := [ETrack (mk_pin 0 false false true 7); ETrack (mk_pin 1 false false false 8); ETrack (mk_pin 2 false true false 9);
+              EComplete 0 true; EComplete 2 false; EComplete 1 false; EUntrack 1; EDaemon 0 (Some false); EComplete 1 false;
+              ERecoverAll [0; 1]; EComplete 0 false; ERecover 0] in
+  let cf : cfg := (1%nat, 1%nat, 3, [], dm_of []) in
+  Forall (ev_bounded 3) evs /\ spec_codes cf (mtrace 3 [] (init_of cf) evs) = [] /\
+  existsb (fun eo => o_quiescent (snd eo)) (mtrace 3 [] (init_of cf) evs) = true /\
+  (let s := fst (step (init 1 0 [] []) (ETrack (mk_pin 5 false false false 0))) in
+   quiescent s = false /\ o_quiescent (model_obs 1 s ROk []) = true).
+Proof. cbv zeta. split; [repeat constructor; vm_compute; tauto|]. repeat split; vm_compute; reflexivity. Qed.
